@@ -19,6 +19,15 @@ MC_ValuesSim == MC_Values \cup {V("complex", "0", 0, 0), V("complex", "0", 1, 0)
 MC_SymbolsSim == MC_Symbols \cup {[name |-> "y", ty |-> "float32"], [name |-> "z", ty |-> "complex64"], [name |-> "b", ty |-> "boolean"]}
 MC_KindsSim == [negative |-> 1, absolute |-> 1, add |-> 2, subtract |-> 2, multiply |-> 2, divide |-> 2, lt |-> 2, ge |-> 2,
                 maximum |-> 2, select |-> 3]
+\* every operation kind of the package whose constructor takes a fixed number of expression operands
+MC_Unary == {"absolute", "acos", "acosh", "asin", "asin_acos_kernel", "asinh", "atan", "atanh", "ceil", "conjugate", "cos",
+             "cosh", "downcast", "exp", "exp2", "expm1", "floor", "imag", "is_finite", "log", "log10", "log1p", "log2",
+             "logical_not", "negative", "positive", "real", "round", "sign", "sin", "sinh", "sqrt", "square", "tan", "tanh",
+             "truncate", "upcast"}
+MC_Binary == {"add", "atan2", "bitwise_and", "bitwise_left_shift", "bitwise_or", "bitwise_right_shift", "bitwise_xor",
+              "complex", "copysign", "divide", "eq", "floor_divide", "ge", "gt", "hypot", "le", "logical_and", "logical_or",
+              "logical_xor", "lt", "maximum", "minimum", "multiply", "ne", "pow", "remainder", "subtract"}
+MC_KindsAll == [k \in MC_Unary \cup MC_Binary \cup {"select"} |-> IF k \in MC_Unary THEN 1 ELSE IF k \in MC_Binary THEN 2 ELSE 3]
 MC_Kinds == [negative |-> 1, subtract |-> 2, lt |-> 2]
 MC_KindsSel == [negative |-> 1, subtract |-> 2, select |-> 3]
 
